@@ -196,6 +196,30 @@ func runC03(c *core.Ctx, ck *Check) {
 						}
 					}
 				}
+				if arity == 3 && r.IntN(10) == 0 {
+					// calendar-shaped triples around a month end: (Y, M, 28..31) against the first days of the next month,
+					// another day of the same month or the same day of a neighbouring month - plain integer tuples all the same
+					y := []int{2023, 2024, 2000, 1900, 2100, 1999, 2025}[r.IntN(7)]
+					m := 1 + r.IntN(12)
+					d := 28 + r.IntN(4)
+					a = []string{itoa(y), itoa(m), itoa(d)}
+					switch r.IntN(4) {
+					case 0, 1:
+						if m == 12 {
+							b = []string{itoa(y + 1), "1", itoa(1 + r.IntN(3))}
+						} else {
+							b = []string{itoa(y), itoa(m + 1), itoa(1 + r.IntN(3))}
+						}
+					case 2:
+						b = []string{itoa(y), itoa(m), itoa(27 + r.IntN(5))}
+					default:
+						b = []string{itoa(y), itoa(1 + r.IntN(12)), itoa(d)}
+					}
+					if r.IntN(2) == 0 {
+						a, b = b, a
+					}
+					w.Count("calendar_shaped_pairs", 1)
+				}
 				as, bs := strings.Join(a, "."), strings.Join(b, ".")
 				w.Count("evaluations", 1)
 				w.Count("events:Compare", 1)
